@@ -583,6 +583,12 @@ size_t rtosc_print_arg_val(const rtosc_arg_val_t *arg,
                     plain = false;
                 else for(const char* s = val->s + 1; *s && plain; ++s)
                     plain = (*s == '_' || (isalnum(*s)));
+                // words the scanner reads as something else need quotes, too
+                static const char* const reserved[] = {
+                    "true", "false", "nil", "inf", "now", "immediately",
+                    "MIDI", "BLOB", NULL };
+                for(const char* const* r = reserved; *r && plain; ++r)
+                    plain = !!strcmp(*r, val->s);
             }
             else plain = false;
 
@@ -954,7 +960,7 @@ static const char* skip_word(const char* exp, const char** str)
     int match = (!strncmp(exp, cur, explen) &&
                  (   !cur[explen]
                   || cur[explen] == '/' || cur[explen] == ']'
-                  || cur[explen] == '.'
+                  || cur[explen] == '.' || cur[explen] == '%'
                   || isspace(cur[explen])));
     if(match) {
         *str += explen;
